@@ -8,7 +8,7 @@ PROP = dict(
         n=dict(quick=300, thorough=6000),
         nontrivial=r'^(detect [1-9]|w \d [0-9a-f]|rd [1-9]\d* \| [1-9]|pw [0-9a-f])',
         rule='one evaluation = one operation on the real code (a log write through kfmt, a ringBuffer.Read, a SetOutputSink, '
-             'a PrefixWriter.Write, or one whole hal.DetectHardware over 0-12 mock drivers, or the end-of-case dump of what every '
+             'a PrefixWriter.Write, or one whole hal.DetectHardware over 0-40 mock drivers registered through device.RegisterDriver, or the end-of-case dump of what every '
              'mock TTY received), replayed through the Lean model; distinct = by hash of (op, observation); non-trivial = a '
              'non-empty write, a read that returned bytes, or a DetectHardware with at least one driver',
         trusted=['sort.Sort enters the model as a parameter assumed to return an order-sorted permutation (the oracle checks it on every case)',
